@@ -538,6 +538,11 @@ func cmdCheck(id, tier string) int {
 			if s.S.End == vexec.EndReturn && okEnd {
 				same = reflect.DeepEqual(norm(s.S.Obs), norm(r.Obs))
 			}
+			if same && s.S.End == vexec.EndReturn && !s.S.MayFail && len(r.Failures) > 0 {
+				// every obligation of this path was discharged, yet the native run of the witness trips over one:
+				// the engine (or a stub) and the real code disagree
+				same = false
+			}
 			if same {
 				validated++
 			} else {
